@@ -1023,7 +1023,7 @@ func expansion(host *gfile, skip int, from *gfile, newPath string) *gfile {
 
 func run(c *hx.Ctx) error {
 	res := c.Res
-	res.Rule = "generated multi-file sets: 0-3 libraries (imported), 1-4 partials (rendered, nested up to depth 4), optionally a layout with a child that extends it (Markdown child on HTML layout included), a main file; formats text/html/css/js/json/markdown by extension; directories with relative and absolute references; macros with and without result format and with 0-2 parameters (string or format types, constant arguments), with package scope and forward references in imported and extending files; macro names exported (unique in the set) or unexported from a pool of three, so that the same private name is declared in several files of a set; two deterministic name-collision matrices (collide.go): 86 sets placement x reference site x declaration order in the modelled language, and 1080 points declaration kind x case x importer-declares x placement x site on the engine against the lexical-scope rule; show sites (constant, parameter, macro call, render; direct or through a variable) wrapped so as to sit in top-level, attribute, tag, script, style, string and code-block contexts. A case = one run of one file of a set (or of one of its expansions); non-trivial when the file contains at least one macro call or render site; distinct by the sources of the set plus the file run"
+	res.Rule = "generated multi-file sets: 0-3 libraries (imported), 1-4 partials (rendered, nested up to depth 4), optionally a layout with a child that extends it (Markdown child on HTML layout included), a main file; formats text/html/css/js/json/markdown by extension; directories with relative and absolute references; macros with and without result format and with 0-2 parameters (string or format types, constant arguments), with package scope and forward references in imported and extending files; macro names exported (unique in the set) or unexported from a pool of three, so that the same private name is declared in several files of a set; two deterministic name-collision matrices (collide.go): 86 sets placement x reference site x declaration order in the modelled language, and 1080 points declaration kind x case x importer-declares x placement x site on the engine against the lexical-scope rule; a 2620-point local-shadowing matrix and a 52-point package-name matrix (shadow.go); a 1728-point matrix reach form x macro format x context x call form against the inline twin and the measured escaper (reach.go); show sites (constant, parameter, macro call, render; direct or through a variable) wrapped so as to sit in top-level, attribute, tag, script, style, string and code-block contexts. A case = one run of one file of a set (or of one of its expansions); non-trivial when the file contains at least one macro call or render site; distinct by the sources of the set plus the file run"
 	m := &measurer{cache: map[escKey]string{}}
 
 	// ---- known findings: replay the recorded minimal inputs
@@ -1142,6 +1142,9 @@ func run(c *hx.Ctx) error {
 	lexicalFamily(c)
 	shadowFamily(c)
 	selectorFamily(c)
+	if err := reachFamily(c, m); err != nil {
+		return err
+	}
 	csets, clabels := collisionSets()
 	for i, set := range csets {
 		res.Hist("collision-set")
